@@ -31,6 +31,8 @@ OPS = {
     "address": [-1, 0, 1, 3, 6],
     "listen=": [True, False], "listen": [None],
     "start_carrier_wave": [None], "stop_carrier_wave": [None],
+    "print_details": [False, True], "update": [None], "flush_rx": [None], "flush_tx": [None],
+    "clear_status_flags": [(True, True, True), (False, True, False)],
 }
 LITE_OPS = ["channel=", "channel", "data_rate=", "data_rate", "pa_level=", "pa_level", "address_length=", "address_length",
             "arc=", "arc", "ard=", "ard", "dynamic_payloads=", "dynamic_payloads", "payload_length=", "payload_length",
@@ -55,6 +57,8 @@ def encode(op, a):
         c["v"], c["n"] = a
     elif op == "interrupt_config":
         c["dr"], c["ds"], c["df"] = map(bool, a)
+    elif op == "clear_status_flags":
+        pass
     elif op == "pa_level=":
         if isinstance(a, tuple):
             c["t"], c["v"], c["lna"] = "pair", a[0], bool(a[1])
@@ -93,8 +97,17 @@ def invoke(nrf, op, a):
         return getattr(nrf, op)(a)
     if op == "get_auto_retries":
         return nrf.get_auto_retries()
-    if op in ("start_carrier_wave", "stop_carrier_wave"):
+    if op in ("start_carrier_wave", "stop_carrier_wave", "update", "flush_rx", "flush_tx"):
         getattr(nrf, op)()
+        return None
+    if op == "clear_status_flags":
+        nrf.clear_status_flags(*a)
+        return None
+    if op == "print_details":
+        import contextlib
+        import io
+        with contextlib.redirect_stdout(io.StringIO()):
+            nrf.print_details(a)        # debugging aid: reads everything back into the driver's cache, must change nothing
         return None
     return getattr(nrf, op)
 
